@@ -103,7 +103,8 @@ let () =
         let head = List.hd parts and body = List.tl parts in
         let impl_s, ord_s, cap = Scanf.sscanf head "%s %s %d" (fun a b c -> (a, b, c)) in
         let impl = match impl_s with "B" -> IBin | "N" -> IBinom | _ -> IFib in
-        let cmp = if ord_s = "max" then cmp_max else cmp_min in
+        let cmp = match ord_s with
+          | "max" -> cmp_max | "sub" -> cmp_sub | "sub3" -> cmp_sub3 | "rsub" -> cmp_rsub | _ -> cmp_min in
         bump ("cases_" ^ impl_s) 1; bump ("cases_" ^ ord_s) 1; maxi "max_cap" cap;
         let st = ref (new0 impl (nat_of_int cap)) in
         let insync = ref true in
